@@ -118,7 +118,7 @@ def cases(draw, path, focus=None):
     module = 'safe' if (km['cls'] == 'keymap' and not km['flat']) else draw(st.sampled_from(['std', 'safe']))
     return {'sig': sig, 'kind': kind, 'nfix': nfix, 'fixed': [draw(vals) for _ in range(nfix)], 'pkw': [], 'b1': b1, 'b2': b2, 'edit': ek, 'sibling': sibling,
             'form1': draw(st.integers(0, 255)), 'form2': draw(st.integers(0, 255)), 'keymap': km, 'path': path, 'module': module,
-            'algo': draw(st.sampled_from(['inf', 'lru', 'lfu', 'mru', 'rr']))}
+            'algo': draw(st.sampled_from(['inf', 'lru', 'lfu', 'mru', 'rr'] + H.DISPATCHED))}
 
 
 def strata(tier):
